@@ -14,6 +14,7 @@ import (
 	"path/filepath"
 	"sort"
 	"strings"
+	"sync/atomic"
 	"time"
 
 	"github.com/influxdata/influxdb/models"
@@ -129,6 +130,8 @@ type vBed struct {
 	// series-lingers-after-piecewise-time-range-deletes), see applyDelete
 	lingerOK map[string]bool
 	extent   map[string][2]int64 // per "shard|series": min/max timestamp ever written since it was last empty
+	// uncertainTypes: "shard#measurement" whose field definitions may or may not have been dropped
+	uncertainTypes map[string]bool
 }
 
 const vDB, vRP = "db", "rp"
@@ -141,6 +144,7 @@ func vOpenStoreAt(root, idx string) (*tsdb.Store, error) {
 	s.EngineOptions.CompactionDisabled = true
 	// small tsi1 log files so that index compactions happen in histories of this size
 	s.EngineOptions.Config.MaxIndexLogFileSize = 2048
+	s.EngineOptions.FileStoreObserver = vObs
 	core, logs := observer.New(zap.InfoLevel)
 	s.WithLogger(zap.New(core))
 	vLastOpenLogs = logs
@@ -554,9 +558,29 @@ func (b *vBed) resetEmptyMeasurements() {
 		name, _ := models.ParseKey([]byte(k.Series))
 		alive[fmt.Sprintf("%d#%s", k.Shard, name)] = true
 	}
+	lingerM := map[string]bool{}
+	for s := range b.lingerOK {
+		name, _ := models.ParseKey([]byte(s))
+		lingerM[name] = true
+	}
+	// with the database-wide inmem index a measurement that is empty in this shard but alive in another
+	// shard is not dropped, so this shard keeps its field definitions: treat that as uncertain too
+	for k := range alive {
+		lingerM[k[strings.Index(k, "#")+1:]] = true
+	}
 	for tk := range b.types {
 		parts := strings.SplitN(tk, "#", 3)
 		if !alive[parts[0]+"#"+parts[1]] {
+			if lingerM[parts[1]] {
+				// the emptied series may still be listed (known finding), in which case the shard keeps the
+				// measurement and its field types: keep generating the old types and never use this
+				// measurement for deliberate type conflicts
+				if b.uncertainTypes == nil {
+					b.uncertainTypes = map[string]bool{}
+				}
+				b.uncertainTypes[parts[0]+"#"+parts[1]] = true
+				continue
+			}
 			delete(b.types, tk)
 		}
 	}
@@ -969,8 +993,14 @@ func (b *vBed) vDrawSel(rt *rapid.T) vSel {
 	case 0: // all time
 	case 1: // closed
 		s.HasMin, s.HasMax = true, true
-		s.Min = rapid.Int64Range(-5, 60).Draw(rt, "min")
-		s.Max = rapid.Int64Range(s.Min, 70).Draw(rt, "max")
+		if rapid.IntRange(0, 2).Draw(rt, "farRange") == 0 {
+			// inside the later blocks of a ~1000..2100-point series
+			s.Min = rapid.Int64Range(900, 2200).Draw(rt, "min")
+			s.Max = s.Min + rapid.Int64Range(0, 400).Draw(rt, "width")
+		} else {
+			s.Min = rapid.Int64Range(-5, 60).Draw(rt, "min")
+			s.Max = rapid.Int64Range(s.Min, 70).Draw(rt, "max")
+		}
 	case 2: // open-ended right
 		s.HasMin = true
 		s.Min = rapid.Int64Range(-5, 1100).Draw(rt, "min")
@@ -991,3 +1021,22 @@ func (b *vBed) vDrawSel(rt *rapid.T) vSel {
 	}
 	return s
 }
+
+// vObserver is the file store observer of every bed store; it can refuse the next n files that are
+// about to be installed (FileStore.replace / tombstone commit -> FileFinishing).
+type vObserver struct {
+	failNext int32
+	refused  int32
+}
+
+var vObs = &vObserver{}
+
+func (o *vObserver) FileFinishing(path string) error {
+	if atomic.LoadInt32(&o.failNext) > 0 && atomic.AddInt32(&o.failNext, -1) >= 0 {
+		atomic.AddInt32(&o.refused, 1)
+		return fmt.Errorf("verif: injected install failure for %s", path)
+	}
+	return nil
+}
+
+func (o *vObserver) FileUnlinking(path string) error { return nil }
